@@ -9,7 +9,7 @@ def t2_write(sx, S, prefix, rsv, oldlens, lens, long):
     oldlen = sx.pick("oldlen", oldlens)
     w = worlds.T2World(sx, S, prefix, [tuple(r) for r in rsv], oldlen, old_lt_80=long)
     w.long_trick = long
-    n = sx.pick("n", [x for x in lens_for(w.cap, lens) if x <= w.cap])
+    n = sx.pick("n", [x for x in lens_for(w.cap, lens + ["cap+1", "cap+8"], slack=8)])
     return ndefflow.roundtrip(sx, w, n, prop="C03")
 
 
@@ -24,7 +24,7 @@ def t1_write(sx, hr, size, prefix, rsv, oldlens, lens, long):
     w = worlds.T1World(sx, tuple(hr), size, prefix, [tuple(r) for r in rsv], oldlen,
                        old_lt_80=long)
     w.long_trick = long
-    n = sx.pick("n", [x for x in lens_for(w.cap, lens) if x <= w.cap])
+    n = sx.pick("n", [x for x in lens_for(w.cap, lens + ["cap+1", "cap+8"], slack=8)])
     return ndefflow.roundtrip(sx, w, n, prop="C03")
 
 
@@ -38,7 +38,7 @@ def t1_format(sx, hr, size, prefix, rsv, oldlens, wipe):
 def t3_write(sx, nbr, nbw, nmaxb, oldlens, lens, emulated):
     oldlen = sx.pick("oldlen", [o for o in oldlens if o <= nmaxb * 16])
     w = worlds.T3World(sx, nbr, nbw, nmaxb, oldlen, emulated=emulated)
-    n = sx.pick("n", [x for x in lens_for(w.cap, lens) if x <= w.cap])
+    n = sx.pick("n", [x for x in lens_for(w.cap, lens + ["cap+1", "cap+8"], slack=8)])
     return ndefflow.roundtrip(sx, w, n, prop="C03")
 
 
@@ -46,7 +46,7 @@ def t4_write(sx, ver, mle, mlc, mfs, oldlens, lens, typ, fsci):
     oldlen = sx.pick("oldlen", oldlens)
     w = worlds.T4World(sx, ver, sx.int("mle", mle[0], mle[1]), sx.int("mlc", mlc[0], mlc[1]),
                        mfs, oldlen, typ=typ, fsci=fsci)
-    n = sx.pick("n", [x for x in lens_for(w.cap, lens) if x <= w.cap])
+    n = sx.pick("n", [x for x in lens_for(w.cap, lens + ["cap+1", "cap+8"], slack=8)])
     return ndefflow.roundtrip(sx, w, n, prop="C03")
 
 
